@@ -149,6 +149,9 @@ def jwe_template(wrap, enc, zip_, aad, where="protected", p2c=1000):
     elif where == "split":
         t["protected"] = {k: v for k, v in hdr.items() if k in ("enc", "zip")}
         t["unprotected"] = {k: v for k, v in hdr.items() if k not in ("enc", "zip")}
+    elif where == "none":
+        # no protected header at all: everything in the shared unprotected header
+        t["unprotected"] = {k: v for k, v in hdr.items() if k != "zip"}
     if aad is not None:
         t["aad"] = aad
     return t
